@@ -346,6 +346,7 @@ type dnsWorld struct {
 	names  []int // indices into dnsAllNames used in this run
 	ups    []*dnsUp
 	asis   netip.AddrPort
+	queueDrops, queueCap int // C10: updates dropped at the full asynchronous queue / its capacity in this run
 	asis2  netip.AddrPort // a second resolver clients address their questions to: as-is answers are scoped by resolver
 	cfg    dnsCfg
 	rules  *dnsRuleSet
